@@ -661,7 +661,17 @@ func poolGet(in *Interp, st *State, fn *ssa.Function, args []Value, retTo ssa.Va
 }
 
 func poolPut(in *Interp, st *State, fn *ssa.Function, args []Value, retTo ssa.Value, pos token.Pos) (Value, bool) {
-	return nil, false
+	// the buffer goes back to the pool: from now on another goroutine may
+	// overwrite it. Remember its backing array; any later read is a violation
+	// of the receive-buffer discipline (C16, L3).
+	if ifc, ok := args[1].(Iface); ok && ifc.T != nil {
+		if p, ok := ifc.V.(Ptr); ok && !p.IsNil() {
+			if sl, ok := st.load(p).(Slice); ok && sl.Obj >= 0 {
+				st.recycled = append(append([]int(nil), st.recycled...), sl.Obj)
+			}
+		}
+	}
+	return nil, true
 }
 
 func atomicLoad(in *Interp, st *State, fn *ssa.Function, args []Value, retTo ssa.Value, pos token.Pos) (Value, bool) {
